@@ -430,6 +430,34 @@ func (w *World) apply(focus waddrmgr.KeyScope, op Op) *Result {
 			}
 			w.Imports = append(w.Imports, &Imported{Scope: focus, Kind: kind, Script: script, Secret: true, Addr: addr.EncodeAddress()})
 		}
+	case "import_tapscript":
+		// a secret taproot script (full tree with one leaf); its accessor is used once while the
+		// manager is unlocked, as a signer would
+		for _, im := range w.Imports {
+			if im.Scope == focus && im.Kind == "tapscript" {
+				res.Skipped = true
+				return res
+			}
+		}
+		leaf := txscript.NewBaseTapLeaf(ImportScriptBytes(3))
+		tap := &waddrmgr.Tapscript{Type: waddrmgr.TapscriptTypeFullTree,
+			ControlBlock: &txscript.ControlBlock{InternalKey: ImportKey(3).PubKey()},
+			Leaves:       []txscript.TapLeaf{leaf}}
+		var taddr waddrmgr.ManagedTaprootScriptAddress
+		res.Err = tx(func(ns walletdb.ReadWriteBucket) error {
+			ma, err := sm.ImportTaprootScript(ns, tap, &waddrmgr.BlockStamp{Height: 0, Hash: *Params.GenesisHash}, 1, true)
+			if err == nil {
+				taddr = ma
+				res.Addrs = []waddrmgr.ManagedAddress{ma}
+			}
+			return err
+		})
+		if commit() && taddr != nil {
+			if !w.Locked && !w.Watching {
+				_, _ = taddr.TaprootScript()
+			}
+			w.Imports = append(w.Imports, &Imported{Scope: focus, Kind: "tapscript", Script: ImportScriptBytes(3), Secret: true, Addr: taddr.Address().EncodeAddress(), Tap: tap})
+		}
 	case "invalidate_cache":
 		// drops the cached account info (the wallet does this after a dry-run account import)
 		sm.InvalidateAccountCache(acct)
